@@ -2894,6 +2894,18 @@ impl Interpreter {
         &mut self,
         gen_state: &Rc<RefCell<BytecodeGeneratorState>>,
     ) -> Result<Guarded, JsError> {
+        // Environment roots pushed while the generator body runs are released when
+        // control goes back to the caller; the generator object keeps its scopes alive
+        let env_guards = self.env_guards.len();
+        let result = self.resume_bytecode_generator_body(gen_state);
+        self.env_guards.truncate(env_guards);
+        result
+    }
+
+    fn resume_bytecode_generator_body(
+        &mut self,
+        gen_state: &Rc<RefCell<BytecodeGeneratorState>>,
+    ) -> Result<Guarded, JsError> {
         use bytecode_vm::{BytecodeVM, VmResult};
 
         // Check if generator is already completed
